@@ -40,7 +40,7 @@ def run(ck: Check) -> None:
     c03.g_level(ck, "D5")  # the target-directed expansion may leave a node unexpanded only if disjoint / strictly inside
     c03.wrappers(ck, "D5", only=("expand_to_target",))  # ... and the public method really runs it
     ck.floor("D5", 3)
-    ck.floor("D1", 2)
+    ck.floor("D1", 1)      # one acceptance site per strategy, or one shared by both
     ck.floor("D2", 2)
     ck.floor("D3", 3)
 
@@ -134,8 +134,16 @@ def d2(ck: Check) -> None:
             probs.append("find_drivers is not called for the current step of the succession")
         ups = []
         for n in ast.walk(lp):
+            # A.update(E)   /   A = A | E   /   A |= E
+            arg = None
             if isinstance(n, ast.Call) and isinstance(n.func, ast.Attribute) and n.func.attr == "update" and text(n.func.value) == A:
                 arg = n.args[0]
+            elif isinstance(n, ast.Assign) and text(n.targets[0]) == A and isinstance(n.value, ast.BinOp) and isinstance(n.value.op, ast.BitOr) \
+                    and text(n.value.left) == A:
+                arg = n.value.right
+            elif isinstance(n, ast.AugAssign) and text(n.target) == A and isinstance(n.op, ast.BitOr):
+                arg = n.value
+            if arg is not None:
                 sd_ = fm.single_def(arg.id, fm.cfgn(n)) if isinstance(arg, ast.Name) else None
                 src = sd_[1] if sd_ else arg
                 okp = isinstance(src, ast.Call) and isinstance(src.func, ast.Name) and src.func.id == "percolate_space" \
@@ -216,6 +224,24 @@ def d3(ck: Check) -> None:
             if nm == "is_subspace" and len(e.args) == 2 and k(e.args[0]) == space and text(e.args[1]) == tgt:
                 return logic.B("GOAL")
             if nm == "node_is_minimal" and e.args and text(e.args[0]) == s:
+                return logic.B("MINIMAL")
+        if isinstance(e, ast.Compare) and len(e.ops) == 1 and isinstance(e.ops[0], ast.In) and text(e.left) == s:
+            # membership in the diagram's list of minimal trap spaces (= the expanded nodes without successors)
+            c_ = e.comparators[0]
+            try:
+                at_ = fm.cfgn(e)
+            except AnalysisError:
+                at_ = cn
+            for _ in range(3):
+                while isinstance(c_, ast.Call) and callee_name(c_) in ("set", "frozenset", "list", "sorted", "tuple") and len(c_.args) == 1:
+                    c_ = c_.args[0]
+                if isinstance(c_, ast.Name):
+                    sd2 = fm.single_def(c_.id, at_)
+                    if sd2 is None:
+                        break
+                    c_, at_ = sd2[1], sd2[0]
+            if isinstance(c_, ast.Call) and callee_name(c_) == "minimal_trap_spaces" and isinstance(c_.func, ast.Attribute) \
+                    and text(c_.func.value) == sdp and not c_.args:
                 return logic.B("MINIMAL")
         return None
 
